@@ -290,6 +290,10 @@ func buildScenario(kind string, r *rng, tier string) *scenario {
 		sc.g, nops = 4, 1
 		sc.sheets = []string{"Sheet1"}
 	}
+	if kind == "w-rels" {
+		sc.sheets = []string{"Sheet1", "R2", "R3", "R4", "R5", "R6"}
+		sc.g, nops, sc.procs, sc.lockstep = 8, 6, 8, true
+	}
 	if kind == "w-first" {
 		sc.sheets = []string{"Sheet1", "F2", "F3", "F4", "F5", "F6"}
 		sc.g, nops, sc.procs, sc.lockstep = 8+r.intn(5), 2*len(sc.sheets), 8, true
@@ -339,6 +343,14 @@ func buildScenario(kind string, r *rng, tier string) *scenario {
 			var kindSel string
 			force := "" // payload class forced by a witness
 			switch kind {
+			case "w-rels": // witness: first use of the relationship parts of a reopened sheet that has pictures
+				sheet = sc.sheets[i%len(sc.sheets)]
+				private = true
+				if t%2 == 0 {
+					kindSel = "addpic"
+				} else {
+					kindSel = "getpic"
+				}
 			case "w-first": // witness: FIRST call on a not yet parsed worksheet, by every documented function
 				k := i / 2
 				sheet = sc.sheets[k%len(sc.sheets)]
@@ -554,6 +566,10 @@ func buildScenario(kind string, r *rng, tier string) *scenario {
 				pk := t*6 + r.intn(6)
 				c := cellName(pk)
 				img := imgs[(t+i)%len(imgs)]
+				if kind == "w-rels" {
+					c = cellName(12 + t*6 + i%6)
+					img = uniquePNG(r.s, t, i)
+				}
 				if kind == "w-media" {
 					sheet = sc.sheets[t%len(sc.sheets)]
 					c = cellName(6 + i) // one cell per round
@@ -604,6 +620,20 @@ func buildScenario(kind string, r *rng, tier string) *scenario {
 			for _, sh := range sc.sheets {
 				if err := f.AddPicture(sh, "A1", imgPath("excel.png"), nil); err != nil {
 					return err
+				}
+			}
+			return nil
+		}
+	case "w-rels":
+		sc.reopen = true
+		sc.prep = func(f *xl.File) error {
+			// every sheet already has a drawing with pictures (and so sheet and drawing relationship parts)
+			for _, sh := range sc.sheets {
+				for k := 0; k < 6; k++ {
+					// many different images: a relationship part that takes a while to decode
+					if err := f.AddPicture(sh, cellName(300+k), uniquePNG(r.s, 100+k%50, k), nil); err != nil {
+						return err
+					}
 				}
 			}
 			return nil
@@ -1363,7 +1393,7 @@ var firstTouch = []string{"setstyle", "setval", "settime", "getval", "addpic", "
 
 // witness scenarios run first on every run: each hammers one pair of functions for which the
 // model predicts (or predicted, before a fix) unsynchronised access
-var witnessKinds = []string{"w-time", "w-fmt", "w-setstyle", "w-colstyle", "formulas", "reopen", "w-getpic", "w-row", "w-ctypes", "w-media", "spill", "w-first"}
+var witnessKinds = []string{"w-time", "w-fmt", "w-setstyle", "w-colstyle", "formulas", "reopen", "w-getpic", "w-row", "w-ctypes", "w-media", "spill", "w-first", "w-rels"}
 
 func main() {
 	seed := flag.Uint64("seed", 1, "")
@@ -1375,7 +1405,7 @@ func main() {
 	flag.Parse()
 	total := *n
 	if total == 0 {
-		total = 56
+		total = 58
 		if *tier == "thorough" {
 			total = 400
 		}
